@@ -842,8 +842,27 @@ impl<'a, 'b> Gen<'a, 'b> {
 
     /// A statement; may add a binding to the scope.
     pub fn stmt(&mut self) -> Stmt {
-        let k = self.t.weighted(&[10, if self.cfg.funcs { 4 } else { 0 }, if self.cfg.modules { 2 } else { 0 }, 1, 2]);
+        let k = self.t.weighted(&[10, if self.cfg.funcs { 4 } else { 0 }, if self.cfg.modules { 2 } else { 0 }, 1, 2, if self.cfg.funcs { 2 } else { 0 }]);
         match k {
+            5 => {
+                // a function that reads several fields of one tuple parameter
+                self.mark("record-function");
+                let rec_ty = Ty::Tuple(vec![("a".into(), Ty::Int), ("b".into(), Ty::Int), ("c".into(), Ty::Str)]);
+                let taken: Vec<String> = vec![];
+                let p = self.param_name(&taken);
+                let fld = |k: &str| E::Field(Box::new(E::Sym(p.clone())), Sel::Name(k.to_string()));
+                let (ret, body) = match self.t.choice(5) {
+                    0 => (Ty::Int, E::Bin(Op::Add, Box::new(fld("a")), Box::new(fld("b")))),
+                    1 => (Ty::Bool, E::Bin(Op::Lt, Box::new(fld("b")), Box::new(fld("a")))),
+                    2 => (Ty::List(Box::new(Ty::Int)), E::List(vec![fld("b"), fld("a"), fld("a")])),
+                    3 => (Ty::Str, E::Bin(Op::Add, Box::new(fld("c")), Box::new(fld("c")))),
+                    _ => (Ty::Tuple(vec![("b".into(), Ty::Str), ("a".into(), Ty::Int)]), E::Tuple(vec![("b".into(), fld("c")), ("a".into(), E::Bin(Op::Mul, Box::new(fld("a")), Box::new(fld("b"))))])),
+                };
+                let ty = Ty::Func(vec![rec_ty], Box::new(ret));
+                let name = self.fresh("f");
+                self.scope.push((name.clone(), ty));
+                Stmt::Let(name, E::Func { params: vec![p.clone()], body: Box::new(body) })
+            }
             0 => {
                 let ty = self.gen_type(0);
                 let e = self.expr(&ty, 0);
